@@ -7,15 +7,15 @@ import numpy as np
 import z3
 
 import symx.ext_c16 as X
-from symx.core import (PI_F, TWOPI_F, SReal, assume, eq_arrays, explore, free_vars, identify_lemma, integer, marray, mfloat, mval, real,
+from symx.core import (PI_F, TWOPI_F, SReal, assume, cur, eq_arrays, explore, free_vars, identify_lemma, integer, marray, mfloat, mval, real,
                        reals, refute, resume, rv, slice_for, trig)
-from symx.runner import Ob
+from symx.runner import Ob, _jsonable
 
 ID = "C16"
 TECHNIQUE = ("symbolic execution of the real wrapping / residual / circular-mean helpers and of the real UnscentedKalmanFilter predict/forecast/update "
              "(calculateMeasurementMatrix, calcMeasurementMean, _calcMeasurementSigmaPoints) on z3 proxies: angles are solver reals, turn counts solver "
              "integers, the measurement function an uninterpreted angle field, wrap-point offsets solver reals; the filter is run on a configuration and on "
-             "the same configuration in another representation / observation order and z3 decides equality of innovation, est_x, est_p "
+             "the same configuration in another representation / observation order / on a filter object that has already served other forecast()/update() calls, and z3 decides equality of innovation, est_x, est_p "
              "(unsat = holds for every angle, turn count, offset, prior and noise within the bounds)")
 FLOAT_SEMANTICS = "Real-ideal: pi is the code's double constant; fmod/remainder are exact truncated/floored remainders"
 ENCODED = [
@@ -37,12 +37,18 @@ BOUNDS = {"angles": "helpers: any real in [-1e7, 1e7] incl. exact multiples of p
           "UKF": "state dimension 1-2 (3-5 sigma points), symbolic prior x, P = L L^T, F, Q, noise R = Lr Lr^T (correlated within an observation); tunings (alpha,beta,kappa) = (1,2,2) "
                  "[positive weights] and (0.5,2,1) [negative centre weight]; with and without sigma-point redraw; O5: one observation of 1-2 components (angle valid in [0,2pi) / angle "
                  "valid in [-pi,pi) / linear row / arbitrary non-angular function), the angular measurement function is arbitrary (one free angle per sigma point; in the *-const cases "
-                 "one common angle for all sigma points); O6: two (thorough: three, state dimension 1) stacked single-component observations, the listed permutations"}
+                 "one common angle for all sigma points); O6: two (thorough: three, state dimension 1) stacked single-component observations, the listed permutations; "
+                 "O7: one filter object, after one predict(): one or two earlier forecast()/update() calls, then the update() that is checked; stacks of 2-3 components with the same total "
+                 "dimension but another order / composition of angular and plain components (the listed sequences)"}
 OUTSIDE = ["double rounding in fmod/remainder (an angle within 1 ulp of the seam) and in the filter algebra ('up to rounding' in the property is not quantified)",
            "state dimensions above 2; more than three stacked observations (property text: up to four), three stacked observations for state dimension 2 (the 3x3 adjugate identity for est_p did not decide within 25 min); symbolic tuning constants in the update obligations",
            "degenerate weighted resultant sum_j w_j (cos, sin)(theta_j) = 0 (numpy's arctan2(0, 0) = 0 carries no direction; possible with a negative centre weight)",
            "singular innovation covariance", "genetic_particle_filter (anchor file; uses the same helpers, not executed)",
-           "that the rotated configuration's measured angle is congruent to y + c is an input relation, not derived from a sensor model"]
+           "that the rotated configuration's measured angle is congruent to y + c is an input relation, not derived from a sensor model",
+           "filter objects reused across several predict() steps (O7 re-uses the object within one step: the posterior of an update is a rational function whose Cholesky factor is not "
+           "available symbolically); stale state other than what update() publishes (mean_pred_y, sigma_y_res, innovation, est_x, est_p, is_angular)",
+           "the exact-seam behaviour of residual() is established for residual()/residuals() themselves (O2, O2s, O3); the UKF obligations use the contract of residual(), so an "
+           "innovation of exactly -pi produced inside update() is excluded by composition, not by a separate UKF-level query"]
 ASSUMPTIONS = ["numpy.fmod = truncated remainder, numpy.remainder / % = floored remainder (contract: r = a - m*k, range by sign rule)",
                "arctan2 modelled by its (cos,sin) pair, range (-pi,pi] and quadrant facts; equal (cos,sin) => equal angle mod 2pi (instantiated per pair)",
                "pi identified with const.PI",
@@ -54,7 +60,12 @@ ASSUMPTIONS = ["numpy.fmod = truncated remainder, numpy.remainder / % = floored 
                "staged proofs: (1) ring identities about the weighted resultant, (2) an abstract 6-variable lemma on unit vectors, (3) linear mixed integer/real reasoning on angles using the "
                "congruence obtained from (1)+(2) and the trusted fact 'equal (cos,sin) => equal mod 2pi', (4) equality of est_x / est_p from the equalities proved in (3); every stage is a solver query",
                "branch feasibility during path exploration of the UKF runs is decided on the linear constraints only (over-approximation: no feasible path is lost)",
-               "integer hints N := k - ident - n_B + n_A are definitional extensions (fresh integer defined by an equation)"]
+               "integer hints N := k - ident - n_B + n_A are definitional extensions (fresh integer defined by an equation)",
+               "counterexample selection (O2, O2s, O3, and the pinned searches of the UKF obligations): when a goal is refutable, models of the same query restricted by partial "
+               "concretisations (operands inside one turn, one operand 0 or pi, no extra turns; generic rational prior) are tried first and the first one whose replay on doubles reproduces is "
+               "reported; the verdict itself is that of the unrestricted query",
+               "O7: the earlier forecast()/update() calls and the checked update() see the same predicted state (forecast()/update() do not modify pred_x, pred_p, sigma points; with redraw the "
+               "sigma points are regenerated from the same pred_x, pred_p): the memoised stubs (arctan2 cut, residual contract, angle field) then return the same terms for the same arguments"]
 LEVEL_TEXT = ("Bounded symbolic verification of the angle helpers and of the UKF measurement update's angle handling: every wrap/residual/circular-mean identity and every "
               "representation/seam/order invariance of the update is an SMT query over real angles, integer turn counts, real wrap-point offsets and a symbolic prior; seam values "
               "and seam-straddling sigma-point sets are ordinary points of the domain, so they are covered, which no sampled test does.")
@@ -79,10 +90,10 @@ def _congruent(path, res, a):
     return z3.Or(*alts)
 
 
-def _congruent_first3(path, res, a):
-    """congruence witnessed by the first three fmod/remainder turn counts of the path (those of the first residual call)"""
+def _congruent_first3(path, res, a, n0=3):
+    """congruence witnessed by the first n0 fmod/remainder turn counts of the path (those of the first residual call, however many it makes)"""
     import itertools
-    ks = [k for (_r, k, _a, m) in path.apps.get("mod", [])][:3]
+    ks = [k for (_r, k, _a, m) in path.apps.get("mod", [])][:n0]
     alts = []
     for signs in itertools.product((1, -1), repeat=len(ks)):
         base = sum((sg * z3.ToReal(k) for sg, k in zip(signs, ks)), z3.RealVal(0))
@@ -151,6 +162,106 @@ def replay_residual(d):
     return bad, {"residual": r0, "residual_shifted": r1, "linear": lin}
 
 
+def _seam_pins(a, b, ints=()):
+    """partial concretisations tried first when a residual obligation has a counterexample: operands inside one turn with one
+    of them on a value that doubles represent exactly, no extra turns - a counterexample exactly on the seam then survives the
+    conversion to doubles (wrapAngle2Pi is exact on [0, 2pi), the difference of 0 and pi is exact)"""
+    zero = [k == 0 for k in ints]
+    inturn = [a >= 0, a < TWOPI, b >= 0, b < TWOPI]
+    return [zero + inturn + [a == 0], zero + inturn + [b == 0], zero + inturn + [a == PI], zero + inturn + [b == PI], zero + inturn, zero]
+
+
+def _prove_pick(rep, label, goal, cons, pinsets, inputs, replay, timeout_ms=30000, sample=None):
+    """The verdict is that of `goal` under `cons`.  When it is `sat` the model reported is chosen among the models of
+    cons + (one of the partial concretisations `pinsets`): the first one whose replay on the real code (doubles) reproduces.
+    Only if none does, the unpinned query is reported through Report.prove (whose replay then decides)."""
+    v = refute(goal, cons, timeout_ms)
+    if v.status != "sat":
+        _record(rep, label, v, sample)
+        if v.status == "unknown" and rep.status == "ok":
+            rep.status = "undecided"
+        return v.status == "unsat"
+    for pins in pinsets:
+        vp = refute(goal, list(cons) + list(pins), 5000)
+        if vp.status != "sat":
+            continue
+        data = inputs(vp.model)
+        try:
+            bad, detail = replay(data)
+        except Exception as e:  # noqa: BLE001
+            bad, detail = False, repr(e)
+        if bad:
+            return rep.prove(label, goal, list(cons) + list(pins), timeout_ms=timeout_ms, inputs=inputs, replay=replay, sample=sample)
+    return rep.prove(label, goal, cons, timeout_ms=timeout_ms, inputs=inputs, replay=replay, sample=sample)
+
+
+def replay_residual1(d):
+    """one call of residuals() / residual() on doubles: the angular component is in (-pi, pi] (exactly: -pi is outside) and
+    congruent to the plain difference, the helpers agree with each other, the non-angular component is the plain difference"""
+    from resonaate.physics import maths as M
+
+    a, b = d["a"], d["b"]
+    tp = 2 * math.pi
+    r0 = float(M.residual(a, b, True))
+    lin = float(M.residual(a, b, False))
+    vec = [float(v) for v in M.residuals(np.array([a, a]), np.array([b, b]), np.array([True, False]))]
+    wn = float(M.wrapAngleNegPiPi(a - b))
+    bad = not (-math.pi < r0 <= math.pi) or not (-math.pi < vec[0] <= math.pi) or lin != a - b or vec[1] != a - b
+    tol = 1e-9 * max(1.0, abs(a), abs(b))
+    k = round((r0 - (a - b)) / tp)
+    bad = bad or abs(r0 - (a - b) - k * tp) > tol
+    # the helpers may differ by rounding only (a turn apart when rounding pushes one of them across the seam)
+    for other in (wn, vec[0]):
+        dd = abs(r0 - other)
+        bad = bad or min(dd, abs(dd - tp)) > tol
+    return bad, {"residual": r0, "wrapAngleNegPiPi(a-b)": wn, "residuals": vec, "linear": lin}
+
+
+def o2s_residual_single(rep):
+    """one angular and one plain component through residuals() (which calls the real residual() per component): the angular
+    residual is in (-pi, pi] - the closed end is +pi - and congruent to a - b (hence equal to wrapAngleNegPiPi(a - b), whose
+    range and congruence O1 proves); the non-angular one is a - b.  Seam values are ordinary points of the domain."""
+    from resonaate.physics import maths as M
+
+    def run():
+        a, b = real("a"), real("b")
+        assume(a.t >= -BIG, a.t <= BIG, b.t >= -BIG, b.t <= BIG)
+        vec = M.residuals(np.array([a, a], dtype=object), np.array([b, b], dtype=object), np.array([True, False]))
+        lin = M.residual(a, b, False)
+        return a, b, vec, lin
+
+    res = explore(run, max_paths=64, branch_timeout_ms=10000)
+    rep.note(f"paths={len(res)}")
+
+    def inputs(m):
+        return {"a": mfloat(m, z3.Real("a")), "b": mfloat(m, z3.Real("b"))}
+
+    A, B = z3.Real("a"), z3.Real("b")
+    pinsets = _seam_pins(A, B)
+    for r in res:
+        if r.exc is not None:
+            rep.error("exception", repr(r.exc))
+            continue
+        a, b, vec, lin = r.out
+        r0 = _real_of(vec[0])
+        tag = "".join("T" if d else "F" for d in r.path.decisions)
+        kw = dict(inputs=inputs, replay=replay_residual1, timeout_ms=10000)
+        _prove_pick(rep, f"range[{tag}]", z3.And(r0 > -PI, r0 <= PI), r.constraints, pinsets, sample="angular residual in (-pi, pi] for all reals, exact seam included", **kw)
+        _prove_pick(rep, f"congruent[{tag}]", _congruent_first3(r.path, r0, a.t - b.t, 4), r.constraints, pinsets, sample="angular residual == a - b (mod 2pi)", **kw)
+        _prove_pick(rep, f"linear[{tag}]", z3.And(lin.t == a.t - b.t, _real_of(vec[1]) == a.t - b.t), r.constraints, pinsets, sample="non-angular residual is the plain difference", **kw)
+    if len(res) < 8:
+        rep.error("reach", "too few paths")
+    # vacuity: both ends of the seam are inside the domain of some explored path (difference of the wrapped operands exactly -pi / +pi, many turns apart)
+    from symx.core import solve
+
+    for nm, c in (("seam-minus-pi", [A == 0, B == PI]), ("seam-plus-pi", [A == PI, B == 0]), ("seam-minus-pi-many-turns", [A == TWOPI * 1000, B == PI - TWOPI * 7])):
+        hit = next((r for r in res if r.exc is None and solve(list(r.constraints) + c, 5000).status == "sat"), None)
+        if hit is None:
+            rep.error(nm, "no explored path contains this seam point")
+        else:
+            rep.reachable(nm, list(hit.constraints) + c)
+
+
 def o2_residual(rep):
     from resonaate.physics import maths as M
 
@@ -159,9 +270,10 @@ def o2_residual(rep):
         j, k = integer("j"), integer("k")
         assume(a.t >= -BIG, a.t <= BIG, b.t >= -BIG, b.t <= BIG, j.t >= -10 ** 6, j.t <= 10 ** 6, k.t >= -10 ** 6, k.t <= 10 ** 6)
         r0 = M.residual(a, b, True)
+        n0 = len(cur().apps.get("mod", []))  # remainder operations of the first call
         r1 = M.residual(a + TWOPI_F * j, b + TWOPI_F * k, True)
         lin = M.residual(a, b, False)
-        return a, b, r0, r1, lin
+        return a, b, r0, r1, lin, n0
 
     res = explore(run, max_paths=400, branch_timeout_ms=10000)
     rep.note(f"paths={len(res)}")
@@ -173,13 +285,14 @@ def o2_residual(rep):
         if r.exc is not None:
             rep.error("exception", repr(r.exc))
             continue
-        a, b, r0, r1, lin = r.out
+        a, b, r0, r1, lin, n0 = r.out
         tag = "".join("T" if d else "F" for d in r.path.decisions)
         goal = z3.And(r0.t == r1.t, r0.t > -PI, r0.t <= PI, lin.t == a.t - b.t)
-        rep.prove(f"congruent[{tag}]", _congruent_first3(r.path, r0.t, a.t - b.t), r.constraints, inputs=inputs, replay=replay_residual,
-                  sample="residual(a,b) == a - b (mod 2pi)")
-        rep.prove(f"turn-invariant+range[{tag}]", goal, r.constraints, inputs=inputs, replay=replay_residual,
-                  sample="residual(a+2pi j, b+2pi k) == residual(a,b) in (-pi,pi], congruent to a-b")
+        pinsets = _seam_pins(z3.Real("a"), z3.Real("b"), (z3.Int("j"), z3.Int("k")))
+        _prove_pick(rep, f"congruent[{tag}]", _congruent_first3(r.path, r0.t, a.t - b.t, n0), r.constraints, pinsets, inputs, replay_residual, timeout_ms=10000,
+                    sample="residual(a,b) == a - b (mod 2pi)")
+        _prove_pick(rep, f"turn-invariant+range[{tag}]", goal, r.constraints, pinsets, inputs, replay_residual, timeout_ms=10000,
+                    sample="residual(a+2pi j, b+2pi k) == residual(a,b) in (-pi,pi], congruent to a-b")
     if len(res) < 8:
         rep.error("reach", "too few paths")
 
@@ -199,7 +312,7 @@ def replay_vec(d):
             dd = abs(v[i] - s[i])
             if min(dd, abs(dd - tp)) > 1e-9:
                 bad = True
-            if not (-math.pi < v[i] <= math.pi):
+            if not (-math.pi < v[i] <= math.pi) or not (-math.pi < s[i] <= math.pi):
                 bad = True
         elif v[i] != s[i]:
             bad = True
@@ -231,9 +344,9 @@ def o3_vec(rep):
             continue
         x, y, v, s = r.out
         tag = "".join("T" if d else "F" for d in r.path.decisions)
-        goal = z3.And(v[0].t == s[0].t, v[0].t > -PI, v[0].t <= PI, v[1].t == s[1].t, v[1].t == x[1].t - y[1].t)
-        rep.prove(f"vec==scalar+range[{tag}]", goal, r.constraints, inputs=inputs, replay=replay_vec,
-                  sample="vecResiduals == residuals, angular component in (-pi, pi]")
+        goal = z3.And(v[0].t == s[0].t, v[0].t > -PI, v[0].t <= PI, s[0].t > -PI, s[0].t <= PI, v[1].t == s[1].t, v[1].t == x[1].t - y[1].t)
+        _prove_pick(rep, f"vec==scalar+range[{tag}]", goal, r.constraints, _seam_pins(z3.Real("x_0"), z3.Real("y_0")), inputs, replay_vec,
+                    sample="vecResiduals == residuals, angular component of both in (-pi, pi]")
     rep.reachable("seam", [z3.Real("x_0") - z3.Real("y_0") == PI])
 
 
@@ -642,9 +755,11 @@ def _concrete_obs(d, i, holder, shifted=False, rotate=True):
     return UObs(comps, Lr @ Lr.T, np.array(y, dtype=float))
 
 
-def _concrete_update(d, order, shifted=False, rotate=True):
+def _concrete_update(d, order, shifted=False, rotate=True, history=True):
     holder = {}
     f = holder["f"] = _concrete_filter(d)
+    for mode, o in (_steps(d["cfg"])[:-1] if history else []):  # earlier forecast()/update() calls on the same filter object
+        getattr(f, mode)([_concrete_obs(d, i, holder, shifted, rotate) for i in o])
     f.update([_concrete_obs(d, i, holder, shifted, rotate) for i in order])
     return f
 
@@ -702,9 +817,23 @@ def replay_order(d):
     return _cmp_posterior(fa, fb, perm=rp)
 
 
+def replay_reuse(d):
+    """real filter, floats: update() on a filter object that served the earlier forecast()/update() calls of cfg["steps"] against the
+    same update() on a fresh filter object (same prior, same predict)"""
+    order = _steps(d["cfg"])[-1][1]
+    fa = _concrete_update(d, order, history=False)
+    fb = _concrete_update(d, order)
+    bad, errs = _cmp_posterior(fa, fb)
+    for nm in ("mean_pred_y", "sigma_y_res"):
+        e = float(np.abs(np.asarray(getattr(fa, nm), dtype=float) - np.asarray(getattr(fb, nm), dtype=float)).max())
+        errs[nm] = e
+        bad = bad or e > 1e-6 * max(1.0, float(np.abs(np.asarray(getattr(fa, nm), dtype=float)).max()))
+    return bad, errs
+
+
 def replay_spec(d):
     """real filter, floats: the published mean / residuals / innovation against their definitions"""
-    order = list(range(len(d["obs"])))
+    order = _steps(d["cfg"])[-1][1]
     f = _concrete_update(d, order)
     w = np.asarray(f.mean_weight, dtype=float)
     bad, errs = False, {}
@@ -747,6 +876,17 @@ def replay_spec(d):
 
 
 # ---- proof plumbing ------------------------------------------------------------------------------
+def _steps(cfg):
+    """[(method name, order of the observation indices)]: what is done with ONE filter object after predict().  Default: one
+    update() with all observations in index order.  cfg["steps"] lists earlier forecast()/update() calls on the same object
+    (the tasking engine calls forecast() with the hypothetical observation of every candidate sensor before the update with
+    the real ones) followed by the update() whose published results are checked."""
+    st = cfg.get("steps")
+    if not st:
+        return [("update", list(range(len(cfg["obs"]))))]
+    return [(m, list(o)) for m, o in st]
+
+
 def _tag(path):
     return "".join("T" if d else "F" for d in path.decisions) or "-"
 
@@ -1025,14 +1165,19 @@ def o5_shift(rep, cfg, rotate):
 # ---- O5-spec: what update() publishes, against the definitions ------------------------------------------
 def o5_spec(rep, cfg):
     """one update(): mean_pred_y is the weighted circular mean (direction of the weighted resultant, inside the range of the
-    angle type) resp. the weighted mean; sigma_y_res / innovation are the wrapped resp. plain differences; flags are right"""
-    order = list(range(len(cfg["obs"])))
+    angle type) resp. the weighted mean; sigma_y_res / innovation are the wrapped resp. plain differences; flags are right.
+    With cfg["steps"]: the same for the last update() of a filter object that has already served other forecast()/update()
+    calls (stacks of the same total dimension but another layout of angular / plain components included)"""
+    steps = _steps(cfg)
+    order = steps[-1][1]
 
     def run():
         sc = Scene(cfg)
         with UEnv(sc):
             f = sc.new_filter()
             f.predict(60.0)
+            for mode, o in steps[:-1]:
+                getattr(f, mode)([sc.observation(i) for i in o])
             f.update([sc.observation(i) for i in order])
         return sc, f
 
@@ -1045,7 +1190,7 @@ def o5_spec(rep, cfg):
             continue
         sc, f = r.out
         tag = _tag(r.path)
-        rows = sc.rows()
+        rows = sc.rows(order)
         cons = r.path.constraints()
         lin = X.linear_part(cons)
         with resume(r.path):
@@ -1071,7 +1216,7 @@ def o5_spec(rep, cfg):
             if mdl is None or mdl is True:
                 rep.error(f"is_angular[{tag}]", f"published flags {flags} differ from the components' angle types, but no model of the path was found for the replay")
             else:
-                data = sc.inputs(mdl, f)
+                data = _jsonable(sc.inputs(mdl, f))
                 bad, detail = replay_spec(data)
                 if bad:
                     rep.concrete_violation(f"is_angular[{tag}]", data, detail)
@@ -1109,6 +1254,64 @@ def o5_spec(rep, cfg):
             gs += [nu > -PI, nu <= PI, z3.IsInt((nu - (_real_of(y[ri]) - m.t)) / TWOPI)]
             _two_step(rep, f"wrapped-residuals[{tag},row{ri}]", z3.And(*gs), lin, full, pinned=lin + pins,
                       sample="sigma_y_res[:, j] and innovation are in (-pi, pi] and congruent to (sigma angle - mean) resp. (measured - mean) mod 2 pi", **kw)
+    if done == 0:
+        rep.error("reach", "no feasible path")
+
+
+# ---- O7: one filter object, several forecast()/update() calls -------------------------------------------------------------
+def o7_reuse_fresh(rep, cfg):
+    """What update() publishes does not depend on what the filter object was used for since the last predict(): the last update() of
+    cfg["steps"] on the reused object against the same update() on a fresh object with the same prior."""
+    steps = _steps(cfg)
+    order = steps[-1][1]
+
+    def run():
+        sc = Scene(cfg)
+        with UEnv(sc):
+            fa = sc.new_filter()
+            fa.predict(60.0)
+            fa.update([sc.observation(i) for i in order])
+            fb = sc.new_filter()
+            fb.predict(60.0)
+            for mode, o in steps[:-1]:
+                getattr(fb, mode)([sc.observation(i) for i in o])
+            fb.update([sc.observation(i) for i in order])
+        return sc, fa, fb
+
+    res = X.explore_lin(run, max_paths=64, branch_timeout_ms=10000)
+    rep.note(f"paths={len(res)}")
+    done = 0
+    for r in res:
+        if r.exc is not None:
+            rep.error("exception", repr(r.exc))
+            continue
+        sc, fa, fb = r.out
+        tag = _tag(r.path)
+        cons = r.path.constraints()
+        lin = X.linear_part(cons)
+        with resume(r.path):
+            for (i, j, kind) in sc.rows(order):
+                if kind != "lin":
+                    sc.columns(fa, i, j)
+            distinct = _distinct_columns(fa)
+        full = cons + sc.at.side_facts() + distinct
+        pins = sc.pins()
+        if rep.feasible(f"path[{tag}]", lin, timeout_ms=10000) is None:
+            continue
+        done += 1
+        if done == 1:
+            rep.reachable(f"nonlinear-constraints-satisfiable[{tag}]", [c_ for c_ in cons if not X.is_linear(c_)] + pins, timeout_ms=30000)
+        kw = dict(inputs=lambda m, sc=sc, fa=fa: sc.inputs(m, fa), replay=replay_reuse)
+        ok = True
+        for nm, what in (("mean_pred_y", "predicted measurement"), ("sigma_y_res", "measurement sigma-point residuals"), ("innovation", "innovation")):
+            g = eq_arrays(np.asarray(getattr(fa, nm), dtype=object), np.asarray(getattr(fb, nm), dtype=object))
+            ok = bool(_two_step(rep, f"{nm}-as-fresh[{tag}]", g, [], full, pinned=lin + pins, sample=f"{what} of a reused filter object == that of a fresh one", **kw)) and ok
+        if not ok:
+            rep.note(f"[{tag}] est_x / est_p not compared: they are functions of the quantities that already differ")
+            continue
+        for nm in ("est_x", "est_p"):
+            g = eq_arrays(np.asarray(getattr(fa, nm), dtype=object), np.asarray(getattr(fb, nm), dtype=object))
+            _two_step(rep, f"{nm}-as-fresh[{tag}]", g, [], full, pinned=cons + pins, sample=f"{nm} of a reused filter object == that of a fresh one", **kw)
     if done == 0:
         rep.error("reach", "no feasible path")
 
@@ -1178,7 +1381,7 @@ def o6_order(rep, cfg, perms):
 
 
 # =======================================================================================
-REPLAYS = {"O1": replay_wrap, "O2": replay_residual, "O3": replay_vec, "O4": replay_mean, "O4b": replay_mean}
+REPLAYS = {"O1": replay_wrap, "O2": replay_residual, "O2s": replay_residual1, "O3": replay_vec, "O4": replay_mean, "O4b": replay_mean}
 
 
 def _cfg(n, tun, resample, obs, const=False):
@@ -1202,6 +1405,18 @@ def _ukf_cases(tier):
     return cases
 
 
+def _reuse_cases(tier):
+    """(suffix, cfg): ONE filter object serves several forecast()/update() calls after a predict(); the stacks have the same total
+    dimension but another layout of angular / plain components (another order of the same observations, or other observations)"""
+    cases = [("n1-pos-a0+lin-reordered", dict(_cfg(1, "pos", False, [["a0"], ["lin"]]), steps=[("forecast", [0, 1]), ("update", [1, 0])])),
+             ("n1-neg-ap.lin-then-lin.a0-redraw", dict(_cfg(1, "neg", True, [["ap", "lin"], ["lin", "a0"]]), steps=[("update", [0]), ("update", [1])]))]
+    if tier == "thorough":
+        cases += [("n2-neg-val+ap-reordered", dict(_cfg(2, "neg", False, [["val"], ["ap"]]), steps=[("forecast", [0, 1]), ("forecast", [1, 0]), ("update", [0, 1])])),
+                  ("n1-pos-a0.lin.ap-then-lin+ap+a0", dict(_cfg(1, "pos", False, [["a0", "lin", "ap"], ["lin"], ["ap"], ["a0"]]), steps=[("forecast", [0]), ("update", [1, 2, 3])])),
+                  ("n2-pos-lin.a0-then-a0+lin-redraw", dict(_cfg(2, "pos", True, [["lin", "a0"], ["a0"], ["lin"]]), steps=[("update", [0]), ("update", [1, 2])]))]
+    return cases
+
+
 def _order_cases(tier):
     cases = [("n1-pos-a0+lin", _cfg(1, "pos", False, [["a0"], ["lin"]]), [[1, 0]]),
              ("n2-neg-a0+ap-redraw", _cfg(2, "neg", True, [["a0"], ["ap"]]), [[1, 0]])]
@@ -1216,6 +1431,7 @@ def obligations(tier):
     obs = [
         Ob("O1", o1_wrap, "wrapAngle2Pi / wrapAngleNegPiPi ranges and congruence", 120),
         Ob("O2", o2_residual, "residual invariant under whole turns, range (-pi,pi]", 300),
+        Ob("O2s", o2s_residual_single, "residuals()/residual(), one angular and one plain component: range (-pi,pi] at the exact seam, congruence mod 2pi, plain difference", 300),
         Ob("O3", o3_vec, "vecResiduals == residuals, range (-pi,pi]", 300),
         Ob("O4", lambda rep: o4_mean(rep, 2 if tier == "quick" else 3), "angularMean invariant under whole turns", 600),
         Ob("O4b", o4b_mean_wrappoint, "angularMean wrap points agree mod 2pi", 600),
@@ -1234,6 +1450,14 @@ def obligations(tier):
                       "update(): rotating the configuration by any offset c (moving it onto / across / away from the wrap point) and re-wrapping every value independently "
                       "leaves sigma_y_res, innovation, est_x, est_p unchanged; mean_pred_y moves by c mod 2pi", big))
         REPLAYS[f"O5-seam-{sfx}"] = replay_shift
+    for sfx, cfg in _reuse_cases(tier):
+        obs.append(Ob(f"O7-reuse-spec-{sfx}", (lambda c: lambda rep: o5_spec(rep, c))(cfg),
+                      "update() on a filter object that has already served forecast()/update() calls with another stack layout of the same dimension: flags, mean_pred_y, "
+                      "sigma_y_res, innovation of THIS stack (angular rows wrapped into (-pi,pi], plain rows plain)", big))
+        REPLAYS[f"O7-reuse-spec-{sfx}"] = replay_spec
+        obs.append(Ob(f"O7-reuse-fresh-{sfx}", (lambda c: lambda rep: o7_reuse_fresh(rep, c))(cfg),
+                      "the same update() on that reused filter object and on a fresh one: equal mean_pred_y, sigma_y_res, innovation, est_x, est_p", big))
+        REPLAYS[f"O7-reuse-fresh-{sfx}"] = replay_reuse
     for sfx, cfg, perms in _order_cases(tier):
         obs.append(Ob(f"O6-order-{sfx}", (lambda c, p: lambda rep: o6_order(rep, c, p))(cfg, perms),
                       "update(): stacked observations in another order give the same est_x, est_p (innovation permuted)", 1500 if tier == "thorough" else 300))
